@@ -3,6 +3,8 @@ package mon
 import (
 	"github.com/openconfig/ygot/ygot"
 	"github.com/openconfig/ygot/zzverif/lib"
+	"math/rand"
+	"reflect"
 )
 
 func init() { Monitors["C14"] = runC14 }
@@ -15,13 +17,17 @@ func c14Opts(i int) lib.GenOpts {
 	opt.Density = 0.6
 	opt.ZeroLenBinary = true
 	opt.EmptyLists = i%5 < 3
+	opt.EmptyLeafLists = i%4 >= 2
 	return opt
 }
 
 // hasSetDescendant reports whether some leaf lies strictly below container path p.
 func hasSetDescendant(o *lib.Obs, p string) bool {
-	for lp := range o.Leaves {
+	for lp, l := range o.Leaves {
 		if lp != p && lib.HasPrefixPath(lp, p) {
+			if l.IsList && l.N == 0 {
+				continue // an allocated but empty leaf-list is not data
+			}
 			return true
 		}
 	}
@@ -38,6 +44,35 @@ func runC14(r *lib.Run) {
 			}
 			g := lib.NewGen(cfg, r.Seed, i, c14Opts(i))
 			t := g.Tree()
+			if i%6 == 5 {
+				// hollow out one container: nothing but an allocated, empty leaf-list remains in it
+				hrng := rand.New(rand.NewSource(r.Seed*613 + int64(i)))
+				nodes := cfg.Nodes(t)
+				for tries := 0; tries < 12 && len(nodes) > 1; tries++ {
+					nd := nodes[1+hrng.Intn(len(nodes)-1)]
+					if nd.IsEntry || nd.Keyless {
+						continue
+					}
+					var ll *lib.FieldInfo
+					for _, f := range nd.Info.Fields {
+						if f.Kind == lib.KLeafList {
+							ll = f
+						}
+					}
+					if ll == nil {
+						continue
+					}
+					sv := nd.V.Elem()
+					for _, f := range nd.Info.Fields {
+						fv := sv.Field(f.Idx)
+						fv.Set(reflect.Zero(fv.Type()))
+					}
+					lv := sv.Field(ll.Idx)
+					lv.Set(reflect.MakeSlice(lv.Type(), 0, 4))
+					r.Hit("tag:hollow-container-with-empty-leaflist")
+					break
+				}
+			}
 			before := cfg.Observe(t)
 			variant := "plain"
 			if i%4 == 1 {
@@ -105,5 +140,5 @@ func runC14(r *lib.Run) {
 			}
 		}
 	}
-	r.RequireCov("variant:plain", "variant:build-empty-first", "tag:ordered-list", "tag:unkeyed", "tag:empty-container", "tag:empty-list", "pruned-ok")
+	r.RequireCov("variant:plain", "variant:build-empty-first", "tag:ordered-list", "tag:unkeyed", "tag:empty-container", "tag:empty-list", "tag:empty-leaflist", "tag:hollow-container-with-empty-leaflist", "pruned-ok")
 }
